@@ -208,7 +208,7 @@ class solve_torchfcn(torch.autograd.Function):
             grad_E = torch.einsum('...rc,...rc->...c', v, Mx.conj())  # (*BABEM, ncols)
 
         # calculate the gradient to the biases matrices
-        grad_mparams = []
+        grad_mparams = [None] * len(mparams)  # M is ignored if E is not supplied
         if ctx.M is not None and E is not None:
             with torch.enable_grad():
                 mparams = [p.clone().requires_grad_() for p in mparams]
